@@ -68,6 +68,7 @@ ProcDirsFrom(t, c, D) ==
   {D} \cup (IF c.recursive
             THEN UNION {ProcDirsFrom(t, c, Append(D, s)) :
                           s \in {s \in Dir(t, D).dirs : /\ ~Match(c.pats, Append(D, s), TRUE)
+                                                        /\ ~(c.out.inside /\ Append(D, s) = c.out.path)   \* the output directory is never input
                                                         /\ (c.auto => HasCmake(t, c.pats, Append(D, s)))}}
             ELSE {})
 ProcDirs(t, c) == IF Match(c.pats, <<>>, TRUE) THEN {} ELSE ProcDirsFrom(t, c, <<>>)
@@ -79,8 +80,8 @@ InDomain(t, c) ==
   /\ c.auto => HasCmake(t, c.pats, <<>>) \/ Match(c.pats, <<>>, TRUE)
   \* where auto-exclusion applies, mixed-case extensions sit next to a lower-case .cmake file
   /\ c.auto => \A D \in DOMAIN t : (\E f \in ProcFiles(t, c, D) : TRUE) => HasCmake(t, c.pats, D)
-  \* the output directory does not exist yet and is not itself named like input
-  /\ c.out.inside => c.out.path \notin DOMAIN t
+  \* (the output directory may exist already - e.g. from an earlier run; it is not input)
+  /\ TRUE
 
 \* ---------------------------------------------------------------- Impl: one os.walk iteration
 \* for x in list: if P(x): list.remove(x)   -- the element after a removed one is never tested
